@@ -240,6 +240,19 @@ CLAIMED["C15"] = dict(
          "allocator for the strings), driver.",
     ref="6 C15")
 
+CLAIMED["C16"] = dict(
+    technique="Lean model of the piecewise readers over the list of remaining bytes + T-corr on real temporary files (every byte value, exhaustive small files with self-overlapping delimiters, destination capacities 0..64) + injected faults (/dev/full, missing file, directory)",
+    text="Theorems: whenever data is left gp_file_read_until splits the file into a non-empty segment and the rest; the segment ends "
+         "with the delimiter at the FIRST place where the bytes read since the previous segment end with it, or reaches the end of "
+         "the file; end of data is reported exactly when nothing is left (readUntil_partition, readUntil_none_iff); reading a line is "
+         "reading until newline (readLine_eq_readUntil); the segments of a piecewise read concatenate to exactly the file's bytes, "
+         "for every file and delimiter (readAll_concat, until_all, lines_all).",
+    note="PARTIAL: gp_file_read_strip (maximal runs of code points outside the set, last run without trailing delimiter) and "
+         "gp_str_file (round trip, append, failure codes under /dev/full, missing file, directory) are modelled and checked by "
+         "correspondence and the reference partition only - OS behaviour is not a theorem. Not provokable here: unreadable file (the "
+         "sandbox runs as root), size change between stat and read. Trusted: harness c16.c, driver.",
+    ref="6 C16")
+
 PENDING = {}
 
 def main():
